@@ -3,6 +3,7 @@ import common
 import gen
 
 ALLOWED_AXIOMS = common.FLOCQ_AXIOMS
+USES_GEN = True   # theorems about the binding forms of grammar.sld
 ASSUMPTIONS = ["Rc sharing of frames and vectors is modelled as equality of store addresses"]
 TRUSTED_EXTRA = ["Model/Value.v models environment.rs (LexicalScope) and ValueReference; the vector builtins are in Model/Builtins.v"]
 
@@ -15,6 +16,12 @@ def explore(ctx):
         forms, stats = gen.history_program(ctx.rng, ctx.rng.randint(20, 60))
         for a, b in stats.items():
             tot[a] = tot.get(a, 0) + b
+        lines = ["FUEL 3000", "NEW 0 std"] + ["EVAL 0 " + common.hexs(f) for f in forms]
+        cases.append({"lines": lines, "forms": forms})
+    # sequential binding forms: a closure of an earlier initialiser and a later binding of the name it mentions
+    for k in range(400 if ctx.quick else 6000):
+        forms = gen.sequential_binding_program(ctx.rng)
+        tot["sequential-binding programs"] = tot.get("sequential-binding programs", 0) + 1
         lines = ["FUEL 3000", "NEW 0 std"] + ["EVAL 0 " + common.hexs(f) for f in forms]
         cases.append({"lines": lines, "forms": forms})
     results, ndis = common.run_cases(ctx, cases, compare=common.compare_fuel)
@@ -34,7 +41,9 @@ def explore(ctx):
         "rule": "random histories of 20-60 top-level forms over up to 5 counters/accumulators made by up to 3 generator "
                 "procedures (internal define + closure, closure pairs sharing one binding, rest parameters, vector "
                 "cells), global assignments, and up to 8 vector variables aliased through variables, arguments, rest "
-                "parameters, lists and other vectors, with probes; literal vectors are mutated to see the rejection. "
+                "parameters, lists and other vectors, with probes; literal vectors are mutated to see the rejection; plus let* / nested let "
+                "forms in which a closure of an earlier initialiser reads or assigns a name that a later binding of the same form "
+                "binds again (outer binding global, parameter, earlier binding or none), followed by assignment or vector mutation. "
                 "Observables per form: canonical value with vectors numbered by identity (ptr_eq in the implementation, "
                 "store address in the model), so the alias partition is compared. non-trivial = a history in which "
                 "some vector is reached by two access paths in one printed value",
